@@ -262,30 +262,8 @@ def incidentEdgesIter (g : Graph α) (v : Nat) : Direction → List Nat
   | .forward => g.outEdgesIter v
   | .reverse => g.inEdgesIter v
 
-/-- the `.map(..).collect::<Result<Vec<_>, _>>()` of `incident_triplet_attributes`: per triplet the vertex of
-the first id, the edge, the vertex of the third id, in that order; the first error wins -/
-def tripletAttrsGo (g : Graph α) : List (Nat × Nat × Nat) → Except NetErr (List (Vertex α × Edge α × Vertex α))
-  | [] => .ok []
-  | (s, e, d) :: r =>
-    match g.getVertex s with
-    | .error x => .error x
-    | .ok sv =>
-      match g.getEdge e with
-      | .error x => .error x
-      | .ok ed =>
-        match g.getVertex d with
-        | .error x => .error x
-        | .ok dv =>
-          match tripletAttrsGo g r with
-          | .error x => .error x
-          | .ok l => .ok ((sv, ed, dv) :: l)
-
-/-- `incident_triplet_attributes` -/
-def incidentTripletAttributes (g : Graph α) (v : Nat) (d : Direction) :
-    Except NetErr (List (Vertex α × Edge α × Vertex α)) :=
-  match g.incidentTripletIds v d with
-  | .error x => .error x
-  | .ok l => tripletAttrsGo g l
+/- `tripletAttrsGo` and `incidentTripletAttributes` (`incident_triplet_attributes`) are defined once, in
+`Model/Graph.lean` (C15); the C18 accessor streams and theorems use those. -/
 
 end Graph
 end Compass
